@@ -109,6 +109,10 @@ def module_path(mod):
     return os.path.join(LEAN, *mod.split(".")) + ".lean"
 
 
+# obligations every property carries (see lean/WV/Props/Common.lean)
+COMMON_MODULES = ["WV.Props.Common"]
+
+
 def import_closure(mods):
     seen = []
     todo = list(mods)
@@ -358,12 +362,12 @@ def run_check(mod, tier="quick", seed=0, replay=None):
         log(f"[{pid}] translator failed (cannot import the working tree):\n{err[-2000:]}")
         return 2
     log(f"[{pid}] extract: {summary['machines']} machines, {summary['transitions']} transitions, changed={summary['changed']}")
-    pr = prove(pid, mod.PROP_MODULES, extra_targets=tuple(["wvdriver"] + list(getattr(mod, "EXTRA_TARGETS", ()))),
+    pr = prove(pid, COMMON_MODULES + list(mod.PROP_MODULES), extra_targets=tuple(["wvdriver"] + list(getattr(mod, "EXTRA_TARGETS", ()))),
                native_ok=tuple(getattr(mod, "NATIVE_DECIDE_MODULES", ())))
     log(f"[{pid}] prove: build_ok={pr['build_ok']} driver_ok={pr['driver_ok']} theorems={len(pr['theorems'])} "
         f"forbidden={len(pr['forbidden'])} bad_axioms={len(pr['bad_axioms'])}")
     if tier == "thorough" and pr["build_ok"]:
-        rk = recheck(mod.PROP_MODULES)
+        rk = recheck(COMMON_MODULES + list(mod.PROP_MODULES))
         pr["leanchecker"] = {k: rk[k] for k in ("ok", "modules", "seconds")}
         log(f"[{pid}] leanchecker: ok={rk['ok']} modules={len(rk['modules'])} in {rk['seconds']}s")
         if not rk["ok"]:
@@ -463,7 +467,7 @@ def run_check(mod, tier="quick", seed=0, replay=None):
         "coverage": {
             "obligations": max(len(pr["theorems"]), 1) + 1,
             "discharged": (len(pr["theorems"]) if pr["ok"] else 0) + (1 if corr_ok else 0),
-            "checker_cmd": "cd lean && lake build " + " ".join(mod.PROP_MODULES) + " wvdriver && lake env lean WV/Audit/%s.lean" % pid,
+            "checker_cmd": "cd lean && lake build " + " ".join(COMMON_MODULES + list(mod.PROP_MODULES)) + " wvdriver && lake env lean WV/Audit/%s.lean" % pid,
             "trusted_base": sorted({a for ax in pr["axioms"].values() for a in ax}) + [
                 "Lean 4.33 kernel", "tools/extract.py (translator)", "harness correspondence (differential, bounded by generators)"
             ] + list(getattr(mod, "TRUSTED", [])),
@@ -515,7 +519,10 @@ def run_check(mod, tier="quick", seed=0, replay=None):
     elif tie_broken:
         broken = []
         if not pr["build_ok"]:
-            broken.append("lake build " + " ".join(mod.PROP_MODULES) + " (a theorem no longer checks against the regenerated model)")
+            errs = sorted(set(re.findall(r"error: ([\w./]+\.lean):(\d+)", pr["log"])))
+            where = ", ".join(f"{f}:{l}" for f, l in errs[:4])
+            broken.append("lake build " + " ".join(COMMON_MODULES + list(mod.PROP_MODULES))
+                          + " (a theorem no longer checks against the regenerated model" + (": " + where if where else "") + ")")
         if pr["forbidden"]:
             broken.append("forbidden tokens: " + "; ".join(pr["forbidden"][:3]))
         if pr["bad_axioms"]:
